@@ -81,7 +81,7 @@ def proc_ppid(pid):
 
 class Server:
     def __init__(self, worker_class="sync", workers=1, graceful=3, bind="unix", pidfile=True, marker="m0", threads=2,
-                 keepalive=2, timeout=30, daemon=False, extra=None):
+                 keepalive=2, timeout=30, daemon=False, extra=None, dash_m=False, app_prelude=""):
         self.dir = tempfile.mkdtemp(prefix="srv-", dir=str(scratch_root()))
         self.worker_class = worker_class
         self.bind = bind
@@ -97,12 +97,13 @@ class Server:
         if extra:
             self.settings.update(extra)
         self.daemon = daemon
+        self.dash_m = dash_m
         self.proc = None
         self.master = None
         with open(os.path.join(self.dir, "launch.py"), "w") as fh:
             fh.write(LAUNCH_SRC)
         with open(os.path.join(self.dir, "gvapp.py"), "w") as fh:
-            fh.write(APP_SRC)
+            fh.write(app_prelude + APP_SRC)
         self.write_conf()
 
     def write_conf(self, **changes):
@@ -120,7 +121,7 @@ class Server:
         env["PYTHONPATH"] = str(vlib.REPO)
         env.pop("GUNICORN_CMD_ARGS", None)
         env["PYTHONDONTWRITEBYTECODE"] = "1"
-        args = [PY, "launch.py", "-c", self.conf, "-b", self.bind_arg(), "--log-file", self.log, "--log-level", "info"]
+        args = ([PY, "-m", "gunicorn"] if self.dash_m else [PY, "launch.py"]) + ["-c", self.conf, "-b", self.bind_arg(), "--log-file", self.log, "--log-level", "info"]
         if self.pidfile:
             args += ["-p", self.pidfile]
         if self.daemon:
